@@ -23,31 +23,31 @@ type piece struct{ raw, nfkd string }
 
 var pieces = []piece{
 	{"a", "a"}, {"TREZOR", "TREZOR"}, {" ", " "}, {"0", "0"}, {"pass word", "pass word"},
-	{"é", "é"},                   // é
-	{"Å", "Å"},                   // Å
-	{"Å", "Å"},                   // ANGSTROM SIGN
-	{"Ω", "Ω"},                    // OHM SIGN -> GREEK CAPITAL OMEGA
-	{"K", "K"},                         // KELVIN SIGN
-	{"ﬁ", "fi"},                        // ligature fi
-	{"Ａ", "A"}, {"１", "1"},        // fullwidth
+	{"é", "é"},            // é
+	{"Å", "Å"},            // Å
+	{"Å", "Å"},            // ANGSTROM SIGN
+	{"Ω", "Ω"},             // OHM SIGN -> GREEK CAPITAL OMEGA
+	{"K", "K"},             // KELVIN SIGN
+	{"ﬁ", "fi"},            // ligature fi
+	{"Ａ", "A"}, {"１", "1"}, // fullwidth
 	{"㌀", "アパート"}, // SQUARE APAATO -> アパート with decomposed パ
-	{"한", "한"},        // Hangul HAN
-	{"가", "가"},              // Hangul GA
-	{"が", "が"},              // が
-	{"ぱ", "ぱ"},              // ぱ
-	{"ｶﾞ", "ガ"},        // halfwidth KA + halfwidth voiced mark
-	{"ạ́", "ạ́"},      // combining marks in non-canonical order (230 before 220)
-	{"ẛ̣", "ṩ"},       // UAX #15 example
+	{"한", "한"},   // Hangul HAN
+	{"가", "가"},    // Hangul GA
+	{"が", "が"},    // が
+	{"ぱ", "ぱ"},    // ぱ
+	{"ｶﾞ", "ガ"},   // halfwidth KA + halfwidth voiced mark
+	{"ạ́", "ạ́"}, // combining marks in non-canonical order (230 before 220)
+	{"ẛ̣", "ṩ"},  // UAX #15 example
 	{"²", "2"}, {"½", "1⁄2"}, {"™", "TM"},
-	{"ǅ", "Dž"},                  // Dž
-	{"　", " "},                         // IDEOGRAPHIC SPACE
-	{" ", " "},                         // NO-BREAK SPACE
-	{"ṩ", "ṩ"},             // ṩ
-	{"Ǖ", "Ǖ"},             // Ǖ
-	{"①", "1"},                         // circled digit one
-	{"ß", "ß"},                    // ß unchanged
-	{"\U0001d400", "A"},                     // MATHEMATICAL BOLD CAPITAL A
-	{" ", " "},                         // EN SPACE
+	{"ǅ", "Dž"},        // Dž
+	{"　", " "},          // IDEOGRAPHIC SPACE
+	{" ", " "},          // NO-BREAK SPACE
+	{"ṩ", "ṩ"},        // ṩ
+	{"Ǖ", "Ǖ"},        // Ǖ
+	{"①", "1"},          // circled digit one
+	{"ß", "ß"},          // ß unchanged
+	{"\U0001d400", "A"}, // MATHEMATICAL BOLD CAPITAL A
+	{" ", " "},          // EN SPACE
 }
 
 func TestMain(m *testing.M) {
@@ -80,7 +80,7 @@ func list(lang string) *ref.List {
 type seedCase struct {
 	Lang    string   `json:"lang"`
 	Words   []string `json:"words"`
-	Pieces  []int    `json:"pieces,omitempty"` // passphrase = concatenation of pieces[i].raw
+	Pieces  []int    `json:"pieces,omitempty"`   // passphrase = concatenation of pieces[i].raw
 	RawPass h.S      `json:"raw_pass,omitempty"` // used when Pieces is nil
 	UseRaw  bool     `json:"use_raw"`
 }
